@@ -160,11 +160,13 @@ theorem suppression_is_one_shot (d : Debugger) (c : Option ContractId) (pc : Nat
   · simp [h, Debugger.suppress]
   · cases ss <;> simp [h, Debugger.suppress]
 
-/-- obligation on the Rust text (regenerated by the translator `debugger_refs`): the `debugger` field and
-the `DebugEvent` constructor occur only in the debugger plumbing the model transcribes -/
+/-- obligation on the Rust text (regenerated by the translator `debugger_refs` on every run): the
+`debugger` field / plumbing methods and the `DebugEvent` constructor are mentioned exactly where the model
+accounts for them — no instruction implementation can observe the debugger or fabricate a debug event, which
+is what the type of `Machine.exec` assumes. (The translator also pins the text of `execute` and
+`instruction_per_inner`: fetch, then the gate, then `instruction_inner`.) -/
 theorem debugger_only_in_plumbing :
-    Gen.debuggerFieldFiles.all (fun f => Gen.debuggerAllowedFiles.contains f) = true
-    ∧ Gen.debugEventFiles.all (fun f => Gen.debugEventAllowedFiles.contains f) = true := by
+    Gen.debuggerMentions = expectedDebuggerMentions ∧ Gen.debugEventMentions = expectedDebugEventMentions := by
   decide
 
 /-! ### non-vacuity: a concrete machine (a counting loop with a call-free body) -/
